@@ -350,11 +350,17 @@ class DavSession:
         """Set (value: str) or remove (value None) one collection property."""
         return self.propupdate(c, [(p, value)])
 
-    def propupdate(self, c, ops, cdata=False):
-        """One PROPPATCH with the instructions ops = [(property, value or None = remove)] in this order."""
+    def propupdate(self, c, ops, cdata=False, enc=None):
+        """One PROPPATCH with the instructions ops = [(property, value or None = remove)] in this order.
+        enc: the request body in another encoding / Content-Type spelling (gamma.reencode_xml)."""
         path = self.slots[c] + "/"
         body = gamma.proppatch_body(ops, cdata=cdata)
-        resp = self.world.request("PROPPATCH", path, [("Content-Type", "text/xml")], body)
+        ctype = "text/xml"
+        if enc:
+            re_ = gamma.reencode_xml(body, enc)
+            if re_ is not None:
+                body, ctype = re_
+        resp = self.world.request("PROPPATCH", path, [("Content-Type", ctype)], body)
         # per-property status decides whether the server reported success
         status = {}
         if resp.status == 207:
